@@ -209,6 +209,10 @@ def variants(fp, cls):
     if "flow_attr" in sig:
         if cls != "MinErrorFlow":      # MinErrorFlow corrects arbitrary weights; its documentation excludes no sign
             add("negativeWeight", "flow(a,b) = -1", lambda kw: kw[g]["a"]["b"].__setitem__("flow", -1), {"w:ab"})
+            # ... and a negative value that keeps conservation: a whole extra source-to-sink route carrying -3
+            def neg_route(kw):
+                kw[g].add_edge("s", "neg", flow=-3, length=1); kw[g].add_edge("neg", "t", flow=-3, length=1)
+            add("negativeWeight", "extra route s->neg->t with flow -3 (conservation holds)", neg_route, {"negroute"})
         add("missingWeight", "flow(a,b) missing", lambda kw: kw[g]["a"]["b"].pop("flow"), {"w:ab"})
         add("badWeightType", "weight_type=str", lambda kw: kw.update(weight_type=str), {"wtype"})
     if cls in FLOW_DECOMP:
